@@ -34,9 +34,21 @@ fn node_id(a: u8, renew: bool) -> Id {
 pub fn form_cluster(sim: &mut Sim, n: usize, cfg: &Cfg, renew: bool, phase: u64) -> Result<u64, String> {
     sim.chooser.recording = false;
     sim.spawn(0, node_id(0, renew), cfg);
-    for k in 1..n as u8 {
-        let at = k as u64 * phase;
-        sim.schedule(at, Evt::Action { node: k, code: 0 });
+    if phase == 0 && n >= 2 {
+        // everybody boots in the same tick and announces to its ring
+        // neighbour: all members become Active in the same tick, so their
+        // periodic timers are exactly aligned
+        for k in 1..n as u8 {
+            sim.spawn(k, node_id(k, renew), cfg);
+        }
+        for k in 0..n as u8 {
+            sim.call(k, &Ev::Announce(id((k + 1) % n as u8, 0)));
+        }
+    } else {
+        for k in 1..n as u8 {
+            let at = k as u64 * phase;
+            sim.schedule(at, Evt::Action { node: k, code: 0 });
+        }
     }
     let deadline = (6 * n as u64 + 10) * PERIOD;
     let mut meshed_at: Option<u64> = None;
@@ -44,7 +56,9 @@ pub fn form_cluster(sim: &mut Sim, n: usize, cfg: &Cfg, renew: bool, phase: u64)
     loop {
         let Some((t, e)) = sim.step(deadline) else { break };
         if let Evt::Action { node, .. } = e {
-            sim.spawn(node, node_id(node, renew), cfg);
+            if sim.nodes[node as usize].is_none() {
+                sim.spawn(node, node_id(node, renew), cfg);
+            }
             sim.call(node, &Ev::Announce(id(0, 0)));
         }
         if meshed_at.is_none() && sim.live().len() == n && sim.all_alive(&all) {
